@@ -44,6 +44,10 @@ BENIGN = [
  ('composite_symmetric_first', R + 'core/cones/compositecone.rs', '                if cone.is_symmetric() == symcond {\n                    continue;\n                }\n                let (dzi, dsi)', '                if cone.is_symmetric() != symcond {\n                    continue;\n                }\n                let (dzi, dsi)'),
  ('composite_skip_ne', R + 'core/cones/compositecone.rs', None, None),  # handled specially: != and swapped flags
  ('is_triu_explicit_loop', 'src/algebra/csc/core.rs', '            if rows.iter().any(|&row| row > col) {\n                return false;\n            }', '            for &row in rows.iter() {\n                if row > col {\n                    return false;\n                }\n            }'),
+ ('prim_dot_commuted', 'src/algebra/vecmath.rs', 'zip(self, y).fold(T::zero(), |acc, (&x, &y)| acc + x * y)', 'zip(self, y).fold(T::zero(), |acc, (&x, &y)| y * x + acc)'),
+ ('prim_norm_inf_scaled_temp', 'src/algebra/vecmath.rs', 'zip(self, v).fold(T::zero(), |acc, (&x, &y)| T::max(acc, T::abs(x * y)))', 'zip(self, v).fold(T::zero(), |acc, (&x, &y)| {\n            let p = y * x;\n            T::max(T::abs(p), acc)\n        })'),
+ ('expformat_negated_guard', D + 'info_print.rs', '        if $val.is_finite() {\n            _exp_str_reformat(format!($fmt, $val))\n        } else {\n            format!($fmt, $val)\n        }', '        if !$val.is_finite() {\n            format!($fmt, $val)\n        } else {\n            _exp_str_reformat(format!($fmt, $val))\n        }'),
+ ('zero_unit_init_reordered', R + 'core/cones/zerocone.rs', '    fn unit_initialization(&self, z: &mut [T], s: &mut [T]) {\n        s.fill(T::zero());\n        z.fill(T::zero());', '    fn unit_initialization(&self, z: &mut [T], s: &mut [T]) {\n        z.fill(T::zero());\n        s.set(T::zero());'),
  ('refactor_comment_and_let', 'src/qdldl/qdldl.rs', '        self.is_symbolic = false;\n        _factor(', '        self.is_symbolic = false;\n        let _n = self.D.len();\n        _factor('),
 ]
 
